@@ -18,6 +18,7 @@ import (
 type c14Case struct {
 	Argv []string `json:"argv"`
 	Line string   `json:"line"`
+	Bare bool     `json:"words_unquoted_where_possible,omitempty"`
 }
 
 var c14Ops = []string{"<=", ">=", "&=", "!=", "=", "<", ">", "&"}
@@ -290,6 +291,11 @@ func c14One(c *mon.Ctx, k *c14Case) {
 	q := make([]string, len(k.Argv))
 	for i, a := range k.Argv {
 		q[i] = rulegen.Quote(a)
+		// a word without quotes, backslashes, blanks, tabs or newlines needs no quoting even when it holds other
+		// (Unicode) white space: write it bare half of the time, so that whole lines come without any quote
+		if k.Bare && !strings.ContainsAny(a, " \t\n'\"\\") && a != "" {
+			q[i] = a
+		}
 	}
 	k.Line = strings.Join(q, " ")
 	exp := c14Interpret(k.Argv)
@@ -339,7 +345,9 @@ func c14One(c *mon.Ctx, k *c14Case) {
 
 // ---- generator ----
 
-var c14Values = []string{"0", "1000", "-1", "unset", "root", "/etc/passwd", "/a b", "/a  b/c", "/a=b", "a=b=c", "x<y", "x>=y", "&", "/tmp/'q'", "/tmp/\"q\"", "\\", "$HOME", "a\tb", " lead", "trail ", "b64", "-EPERM", "0x1f", "rwxa", "key,with,commas", "*", "/a\nb", "é"}
+var c14Values = []string{"0", "1000", "-1", "unset", "root", "/etc/passwd", "/a b", "/a  b/c", "/a=b", "a=b=c", "x<y", "x>=y", "&", "/tmp/'q'", "/tmp/\"q\"", "\\", "$HOME", "a\tb", " lead", "trail ", "b64", "-EPERM", "0x1f", "rwxa", "key,with,commas", "*", "/a\nb", "é",
+	// white space that is NOT a word separator for a shell tokenizer (only blank, tab and newline are): it is part of the word
+	"/srv/a\u00a0b", "/srv/shared\u00a0", "\u2003x", "/x\r", "a\vb", "a\fb", "/p\u3000q", "v\u0085w"}
 
 func c14FilterArg(r *mon.Rand) string {
 	fields := rulegen.AllFieldNames()
@@ -491,7 +499,7 @@ func init() {
 			n := c.Pick(200_000, 60_000_000)
 			c.ForEach(n, func(w, i int) {
 				r := c.Rand(1, uint64(i))
-				k := &c14Case{Argv: c14Gen(r)}
+				k := &c14Case{Argv: c14Gen(r), Bare: r.Bool()}
 				c14One(c, k)
 				ev.Add(1)
 				if strings.ContainsAny(k.Line, "'") {
